@@ -218,6 +218,189 @@ func c01(w, tw *h.W, tier string, seed int64, only string) {
 	h.Summary(map[string]any{"runs": runs, "violations": viol, "ops": len(ops), "skipped": skipped})
 }
 
+// ---------------------------------------------------------------------------------------------- C02
+
+func classify(sn fsx.Snap, before, after fsx.Snap, p string) string {
+	e, ok := sn[p]
+	if !ok {
+		return "ABSENT"
+	}
+	if b, ok := before[p]; ok && b.Kind == e.Kind && b.Sha == e.Sha && b.Size == e.Size && b.Target == e.Target {
+		return "OLD"
+	}
+	if a, ok := after[p]; ok && a.Kind == e.Kind && a.Sha == e.Sha && a.Size == e.Size {
+		return "NEW"
+	}
+	return "OTHER"
+}
+
+func c02(w, tw *h.W, tier string, seed int64, only string) {
+	ops := catalog.Ops()
+	runs, viol, points := 0, 0, 0
+	skipped := []string{}
+	for i := range ops {
+		op := &ops[i]
+		if !selected(op.Name, only) || op.Class == "outdir" {
+			continue
+		}
+		for _, cfg := range catalog.Configs(op, false) {
+			sc := catalog.NewScenario(op, cfg)
+			if !sc.Replaces {
+				sc.Close()
+				continue
+			}
+			r := sc.Run(fsx.RunCfg{Snapshots: true})
+			if r.Outcome() != "ok" {
+				skipped = append(skipped, fmt.Sprintf("%s/%s: %s", op.Name, cfg, errStr(&r)))
+				sc.Close()
+				continue
+			}
+			tid++
+			rec := runRec{T: tid, Op: op.Name, Cfg: cfg, Kind: "crash", N: len(r.Events), Outcome: "ok", Verdict: "ok", Diff: []string{}}
+			before, after := r.Before, r.After
+			for k, sn := range r.Snaps {
+				points++
+				at := ""
+				if k < len(r.Events) {
+					at = r.Events[k].Op + " " + r.Events[k].A
+				}
+				for _, dest := range sc.Outs {
+					c := classify(sn, before, after, dest)
+					if c != "OLD" && c != "NEW" && rec.Verdict == "ok" {
+						rec.Verdict = "violation"
+						rec.K = k + 1
+						rec.At = at
+						rec.Key = fmt.Sprintf("%s|%s|crash|dest %s before %s", op.Name, cfg, c, callClass(at))
+						rec.Why = fmt.Sprintf("a kill before call %d (%s) leaves %s %s (neither its previous nor the final content)", k+1, at, dest, c)
+					}
+				}
+				// leftovers: anything not present before must be hidden and live next to a destination
+				for name := range sn {
+					if _, ok := before[name]; ok {
+						continue
+					}
+					isOut := false
+					for _, o := range sc.Outs {
+						if o == name {
+							isOut = true
+						}
+					}
+					if isOut {
+						continue
+					}
+					dir := name
+					if j := strings.LastIndex(name, "/"); j >= 0 {
+						dir = name[:j]
+					} else {
+						dir = "."
+					}
+					base := name[strings.LastIndex(name, "/")+1:]
+					okDir := false
+					for _, d := range sc.DestDirs {
+						if d == dir {
+							okDir = true
+						}
+					}
+					if (!strings.HasPrefix(base, ".") || !okDir) && rec.Verdict == "ok" {
+						rec.Verdict = "violation"
+						rec.K = k + 1
+						rec.At = at
+						rec.Key = fmt.Sprintf("%s|%s|crash|leftover not hidden next to destination", op.Name, cfg)
+						rec.Why = fmt.Sprintf("a kill before call %d (%s) leaves %s, which is not a hidden file next to the destination", k+1, at, r.Canon.Path(sc.SB.P(name)))
+					}
+				}
+			}
+			for _, l := range r.Lines(fsx.Meta{T: tid, Name: op.Name + "/" + cfg, Prot: sc.Outs, Outs: sc.Outs, DestDirs: sc.DestDirs, Judge: []string{"c02"}}) {
+				tw.Put(l)
+			}
+			w.Put(rec)
+			runs++
+			if rec.Verdict == "violation" {
+				viol++
+			}
+			sc.Close()
+		}
+	}
+	h.Summary(map[string]any{"runs": runs, "violations": viol, "crash_points": points, "skipped": skipped, "ops": len(ops)})
+}
+
+// ---------------------------------------------------------------------------------------------- C03
+
+func c03(w, tw *h.W, tier string, seed int64, only string) {
+	ops := catalog.Ops()
+	runs, viol := 0, 0
+	skipped := []string{}
+	for i := range ops {
+		op := &ops[i]
+		if !selected(op.Name, only) || op.Class == "outdir" {
+			continue
+		}
+		for _, cfg := range catalog.Configs(op, true) {
+			sc := catalog.NewScenario(op, cfg)
+			r := sc.Run(fsx.RunCfg{})
+			tid++
+			rec := runRec{T: tid, Op: op.Name, Cfg: cfg, Kind: "none", N: len(r.Events), Outcome: r.Outcome(), Err: errStr(&r), Verdict: "ok"}
+			rec.Diff = fsx.Diff(r.Canon.Snap(r.Before), r.Canon.Snap(r.After))
+			if rec.Diff == nil {
+				rec.Diff = []string{}
+			}
+			fail := func(key, why string) {
+				if rec.Verdict == "ok" {
+					rec.Verdict = "violation"
+					rec.Key = fmt.Sprintf("%s|%s|%s", op.Name, cfg, key)
+					rec.Why = why
+				}
+			}
+			if r.Outcome() != "ok" {
+				// a refusal is acceptable only if nothing changed (C01 judges failures); remember it as skipped
+				if len(rec.Diff) != 0 {
+					fail("failed and changed files", "operation failed and changed: "+strings.Join(rec.Diff, " "))
+				} else {
+					skipped = append(skipped, fmt.Sprintf("%s/%s: %s", op.Name, cfg, errStr(&r)))
+				}
+			} else {
+				dest := sc.Outs[0]
+				a, ok := r.After[dest]
+				switch {
+				case !ok:
+					fail("destination missing", "operation succeeded but "+dest+" does not exist")
+				case a.Kind != "f":
+					fail("destination not a regular file", dest+" is not a regular file")
+				case !sc.OkPDF(dest):
+					fail("destination incomplete", dest+" does not validate: not the complete output")
+				}
+				if b, ok2 := r.Before[dest]; ok && ok2 && b.Kind == "f" && a.Mode != b.Mode {
+					fail("mode changed", fmt.Sprintf("%s had mode %o, now %o", dest, b.Mode, a.Mode))
+				}
+				for _, d := range rec.Diff {
+					name := d[1:]
+					if j := strings.Index(name, "("); j >= 0 && d[0] == '~' {
+						name = name[:j]
+					}
+					if name == dest {
+						continue
+					}
+					// a name aliasing the output (hard link / symlink target) may keep the old or show the new content, never anything else
+					if d[0] == '~' && (cfg == "symlink" || cfg == "hardlink") && name == "in/in.pdf" && sc.OkPDF(name) {
+						continue
+					}
+					fail("other entry changed", "operation succeeded but also changed "+d)
+				}
+			}
+			for _, l := range r.Lines(fsx.Meta{T: tid, Name: op.Name + "/" + cfg, Prot: sc.Prot, Outs: sc.Outs, DestDirs: sc.DestDirs, Judge: []string{"c03"}, OkPDF: sc.OkPDF}) {
+				tw.Put(l)
+			}
+			w.Put(rec)
+			runs++
+			if rec.Verdict == "violation" {
+				viol++
+			}
+			sc.Close()
+		}
+	}
+	h.Summary(map[string]any{"runs": runs, "violations": viol, "skipped": skipped, "ops": len(ops)})
+}
+
 func main() {
 	api.DisableConfigDir()
 	os.Setenv("TMPDIR", os.TempDir())
@@ -231,6 +414,10 @@ func main() {
 	switch mode {
 	case "c01":
 		c01(w, tw, tier, seed, h.Arg("--only"))
+	case "c02":
+		c02(w, tw, tier, seed, h.Arg("--only"))
+	case "c03":
+		c03(w, tw, tier, seed, h.Arg("--only"))
 	default:
 		h.Die("usage: fsops c01|c02|c03 --runs f --trace f --tier quick|thorough --seed n [--only substr]")
 	}
